@@ -484,6 +484,8 @@ def run_one(ctl: explorer.Ctl, cfg: Dict[str, Any]) -> Dict[str, Any]:
         return run_long_text(ctl, cfg)
     if cfg.get("part") == "registration-form":
         return run_registration_form(ctl, cfg)
+    if cfg.get("part") == "dropped-server":
+        return run_dropped_server(ctl, cfg)
     mi, ii = cfg["m"], cfg["i"]
     m = _methods()[mi]
     path, mkind = method_kind(m)
@@ -1533,7 +1535,10 @@ def long_text_configs() -> List[Dict[str, Any]]:
 # ---------------------------------------------------------------------------
 REG_FORMS = ["coroutine-function", "object-with-async-__call__", "async-def-behind-a-plain-def-decorator", "lambda-forwarding",
              "functools.partial-of-an-async-function", "bound-async-method", "functools.partial-of-a-bound-async-method",
-             "AsyncMock-with-side_effect", "staticmethod-taken-from-the-class"]
+             "AsyncMock-with-side_effect", "staticmethod-taken-from-the-class",
+             # the owner of the bound method is a temporary: nothing but the registration refers to it, and the garbage
+             # collector runs before the message is dispatched
+             "bound-async-method-of-a-temporary-owner", "functools.partial-of-a-method-of-a-temporary-owner"]
 REG_BEHAVIOURS = ["return-str", "return-dict", "raise-exception", "raise-text:empty:AssertionError", "yield-then-return",
                   "yield-then-raise", "nonsense-return-None", "raise-KeyError"]
 
@@ -1598,8 +1603,14 @@ def run_registration_form(ctl: explorer.Ctl, cfg: Dict[str, Any]) -> Dict[str, A
                 "functools.partial-of-a-bound-async-method": functools.partial(obj.method),
                 "AsyncMock-with-side_effect": mock.AsyncMock(side_effect=body),
                 "staticmethod-taken-from-the-class": Callable_.static,
+                "bound-async-method-of-a-temporary-owner": Callable_().method,
+                "functools.partial-of-a-method-of-a-temporary-owner": functools.partial(Callable_().method),
             }[form]
             srv.protocol_handler.register_method("custom/method", handler)
+            del handler, obj
+            import gc
+
+            gc.collect()
             wire: Dict[str, Any] = {"jsonrpc": "2.0", "method": "custom/method", "params": {"k": 1}}
             if rid is not None:
                 wire["id"] = rid
@@ -1647,8 +1658,73 @@ def run_registration_form(ctl: explorer.Ctl, cfg: Dict[str, Any]) -> Dict[str, A
     return {"outcome": "/".join(toks), "violations": list(firsts.values()), "counters": {"registration-form-dispatches": 3}}
 
 
+def run_dropped_server(ctl: explorer.Ctl, cfg: Dict[str, Any]) -> Dict[str, Any]:
+    """A factory hands out only MCPServer(...).protocol_handler: the server object itself is a temporary.  Everything
+    registered through it must keep answering after a garbage collection."""
+    import gc
+
+    from chuk_mcp.protocol.messages.json_rpc_message import parse_message
+    from chuk_mcp.server.server import MCPServer
+
+    class Plugin:
+        async def handle(self, message, session_id):
+            return self.handler.create_response(message.id, {"by": "plugin"}), None
+
+    def factory():
+        srv = MCPServer("vf-c08-dropped", "0.0.1")
+
+        async def t(**kw):
+            return "tool-result"
+
+        srv.register_tool("t", t, {"type": "object"}, "t")
+        srv.register_resource("res://r", t, name="r")
+        plugin = Plugin()
+        plugin.handler = srv.protocol_handler
+        srv.protocol_handler.register_method("plugin/op", plugin.handle)
+        return srv.protocol_handler
+
+    viol: List[dict] = []
+    toks: List[str] = []
+
+    async def main():
+        ph = factory()
+        for _ in range(cfg["collections"]):
+            gc.collect()
+        probes = [("tools/list", None, "R"), ("tools/call", {"name": "t", "arguments": {}}, "R"), ("resources/list", None, "R"),
+                  ("resources/read", {"uri": "res://r"}, "R"), ("plugin/op", None, "R"), ("ping", None, "R"),
+                  ("tools/call", {"name": "nope"}, "E-32602"), ("no/such", None, "E-32601")]
+        for meth, params, want in probes:
+            wire: Dict[str, Any] = {"jsonrpc": "2.0", "id": 4, "method": meth}
+            if params is not None:
+                wire["params"] = params
+            try:
+                ret = await ph.handle_message(parse_message(wire))
+                d = _dump(ret[0]) if isinstance(ret, tuple) and len(ret) == 2 and ret[0] is not None else None
+            except Exception as e:  # noqa: BLE001
+                viol.append({"sig": {"class": "request-raised", "method": meth, "owner": "dropped", "detail": type(e).__name__},
+                             "msg": f"{wire}: raised {type(e).__name__}: {str(e)[:100]}"})
+                continue
+            tok = _token(d) if isinstance(d, dict) and classify(d)[0] in ("result", "error") and strict_eq(d.get("id"), 4) else "invalid"
+            toks.append(tok)
+            if tok != want:
+                viol.append({"sig": {"class": "wrong-outcome", "method": meth, "owner": "dropped-server-or-plugin-object", "got": tok},
+                             "msg": f"only the protocol handler of a temporary MCPServer is kept, {cfg['collections']} garbage "
+                                    f"collection(s) ran: {wire} expected {want}, got {tok}: {d!r}"})
+
+    loop = new_loop(horizon=5)
+    status, val = loop.run_main(main())
+    errors = loop.collect_errors()
+    loop.abandon()
+    if status != "ok":
+        raise core.HarnessError(f"dropped server {cfg} did not complete: {status} {val!r}")
+    if errors:
+        raise core.HarnessError(f"dropped server {cfg}: event loop reported {errors[:2]}")
+    return {"outcome": "/".join(toks), "violations": viol, "counters": {"registration-form-dispatches": 8}}
+
+
 def registration_form_configs() -> List[Dict[str, Any]]:
-    return [{"part": "registration-form", "form": f, "beh": k} for f in range(len(REG_FORMS)) for k in range(len(REG_BEHAVIOURS))]
+    return [{"part": "registration-form", "form": f, "beh": k} for f in range(len(REG_FORMS)) for k in range(len(REG_BEHAVIOURS))] + \
+        [{"part": "dropped-server", "collections": n} for n in (0, 1, 3)]
 
 
 def overlap_configs(tier: str) -> List[Dict[str, Any]]:
@@ -1812,7 +1888,8 @@ def run(tier: str, only=None) -> core.Result:
         "and exception texts of tool, resource and custom handlers whose error text reaches 2^6..2^16 bytes -28..+4, built from 2-, "
         "3- and 4-byte characters after 0..3 ASCII bytes (every alignment), as request and notification.  Registration forms: the register_method handler registered as a coroutine function, an object with "
         "async __call__, an async def behind a plain-def decorator, a forwarding lambda, functools.partial of an async function / of a "
-        "bound async method, a bound async method, an AsyncMock, a staticmethod x 8 behaviours x request ids 0 / 'a' / notification: "
+        "bound async method, a bound async method, an AsyncMock, a staticmethod, a bound method / partial of a method of a TEMPORARY owner (garbage "
+        "collection before dispatch; also a factory that keeps only MCPServer(...).protocol_handler) x 8 behaviours x request ids 0 / 'a' / notification: "
         "the body runs exactly once and the usual outcome follows.  Debug-logging passes: a slice of the "
         "block grid (every method x id absent/int/str x 8 params shapes x up to 4 behaviours), every 7th overlap configuration "
         "and every 5th server set re-run with the root logger at DEBUG (log-statement arguments are evaluated)"
